@@ -9,6 +9,11 @@ CHECKS = {
          "Every input of four finite spaces (S1 construct product with slots filled regardless of sense, S2 every single token/line/truncation edit of 18 seeds, S3 import closures, S4 all byte strings up to length 3 (thorough 4) over 27 bytes) is compiled by the real parse.Parser in worker subprocesses; the oracle is model-xor-error, no panic on any goroutine, no process exit, termination. Representatives go through the built sysl binary (exit 0 with output, or non-zero with a message, no Go crash text).",
          "inputs outside the enumerated spaces are not covered; 60 s per compile before non-termination is declared",
          "DESIGN.md §4 C01"),
+ "C03": ("exploration",
+         "metamorphic bounded-exhaustive exploration: every seed x every global re-indentation x a blank line / comment inserted at every position (deviation-bounded), compared by proto equality modulo locations on the real parser",
+         "Seeds are every compiling .sysl file of the repository plus generated seeds; each is recompiled under indent scaling (x2, x3, exact /2, /4), four tab rules, a blank line before every line, and four comment variants (text or bare '#', at the line's indentation or column 0) before every declaration line; quick applies one local deviation at every position of small seeds, thorough the whole corpus and pairs on small seeds. Acceptance must be preserved and the models equal once source contexts are cleared.",
+         "comments are only inserted at declaration/statement boundaries; imports are read untransformed; lines inside multi-line string literals are not re-indented",
+         "DESIGN.md §4 C03"),
  "C05": ("model_checking",
          "stateless DFS over all schedules of the real retrieval code under a cooperative scheduler (sync.Mutex/errgroup swapped by build overlay, reader is the harness's), global-state pruning; reference closure model",
          "For every import graph in the bound (all graphs on <=3 files with ordered import lists, named 4- and 5-file shapes, all depth limits, spelling variants of the same file) every schedule of the concurrent retrievals is executed on the real parse.Parser; each complete execution must read each included file once, include exactly the files nearer than the limit, in the text-determined order, with one outcome over all schedules; no deadlock or livelock. A full compile checks the merge order and once-only contribution in the model.",
